@@ -129,6 +129,32 @@ DEEP_OPS = [
 ]
 
 
+def mk_parent(par_kind):
+    """Parent objects themselves; par_kind picks the shape"""
+    seq = Sequence("ACGTACGTAC", Alphabet.NT_STRICT, id="s1", type=SequenceType.CHROMOSOME)
+    if par_kind == "seq_strand":
+        return Parent(sequence=seq, strand=MINUS)
+    if par_kind == "seq_loc":
+        return Parent(sequence=seq, location=SingleInterval(2, 8, MINUS))
+    if par_kind == "id_strand":
+        return Parent(id="p1", sequence_type="feature", strand=PLUS, parent=Parent(id="gp", sequence_type=SequenceType.CHROMOSOME))
+    return Parent(id="p1", sequence_type=SequenceType.CHROMOSOME, location=CompoundInterval([1, 6], [4, 9], PLUS), parent=Parent(id="gp"))
+
+
+def _pnorm(p):
+    return None if p is None else (p.id, str(p.sequence_type), str(p._strand if hasattr(p, "_strand") else None), str(p.strand), str(p.location), str(p.sequence) if p.sequence else None,
+                                   _pnorm(p.parent))
+
+
+PARENT_OPS = [
+    ("strip", lambda o: _pnorm(o.strip_location_info())), ("strand", lambda o: str(o.strand)), ("repr", repr), ("hash", hash), ("eq_self", lambda o: o == o),
+    ("norm", _pnorm), ("reset_loc", lambda o: _pnorm(o.reset_location(SingleInterval(0, 3, PLUS)))), ("strip_is_equal", lambda o: o.strip_location_info() == o),
+    ("anc_chrom", lambda o: o.has_ancestor_of_type(SequenceType.CHROMOSOME)), ("first_chrom", lambda o: call(lambda x: _pnorm(x.first_ancestor_of_type(SequenceType.CHROMOSOME)), o)),
+    ("eq_except_loc", lambda o: o.equals_except_location(o.strip_location_info())), ("anc_seq", lambda o: o.has_ancestor_sequence(o.sequence) if o.sequence else None),
+    ("evict", evict),
+]
+
+
 def _par(kind):
     if kind == "chrom":
         return chrom_parent(GENOME40)
@@ -186,7 +212,8 @@ LOC_OPS = [
     ("evict", evict), ("twin", lambda o: str(type(o)([1], [2], PLUS) if False else SingleInterval(1, 9, PLUS).extract_sequence)),
 ]
 CDS_OPS = [
-    ("extract", lambda o: o.extract_sequence()), ("rel_codons", lambda o: o.chunk_relative_codon_locations), ("chr_codons", lambda o: o.chromosome_codon_locations),
+    ("lift_chunk", lambda o: o.lift_over_to_first_ancestor_of_type(SequenceType.SEQUENCE_CHUNK)), ("lift_chrom", lambda o: o.lift_over_to_first_ancestor_of_type(SequenceType.CHROMOSOME)),
+    ("lift_missing", lambda o: o.lift_over_to_first_ancestor_of_type("no_such_type")), ("extract", lambda o: o.extract_sequence()), ("rel_codons", lambda o: o.chunk_relative_codon_locations), ("chr_codons", lambda o: o.chromosome_codon_locations),
     ("translate", lambda o: o.translate()), ("translate_trunc", lambda o: o.translate(truncate_at_in_frame_stop=True)), ("num_codons", lambda o: o.num_codons),
     ("num_rel_codons", lambda o: o.num_chunk_relative_codons), ("valid_stop", lambda o: o.has_valid_stop), ("inframe_stop", lambda o: o.has_in_frame_stop),
     ("to_dict", lambda o: o.to_dict()), ("chr_loc", lambda o: o.chromosome_location), ("rel_loc", lambda o: o.chunk_relative_location),
@@ -196,7 +223,8 @@ CDS_OPS = [
     ("len", len), ("export_q", lambda o: o.export_qualifiers({"pq": {"z"}})),
 ]
 TX_OPS = [
-    ("spliced", lambda o: o.get_spliced_sequence()), ("cds_seq", lambda o: o.get_cds_sequence()), ("protein", lambda o: o.get_protein_sequence()),
+    ("lift_chunk", lambda o: o.lift_over_to_first_ancestor_of_type(SequenceType.SEQUENCE_CHUNK)), ("lift_chrom", lambda o: o.lift_over_to_first_ancestor_of_type(SequenceType.CHROMOSOME)),
+    ("lift_missing", lambda o: o.lift_over_to_first_ancestor_of_type("no_such_type")), ("spliced", lambda o: o.get_spliced_sequence()), ("cds_seq", lambda o: o.get_cds_sequence()), ("protein", lambda o: o.get_protein_sequence()),
     ("tx_seq", lambda o: o.get_transcript_sequence()), ("5p", lambda o: o.get_5p_interval()), ("3p", lambda o: o.get_3p_interval()),
     ("to_dict", lambda o: o.to_dict()), ("gff", _gff), ("gff_parentq", lambda o: [str(r) for r in o.to_gff(parent="P", parent_qualifiers={"pq": {"z"}, "note": {"pn"}})]),
     ("export_q", lambda o: o.export_qualifiers({"note": {"extra"}, "pq": {"z"}})), ("bed", lambda o: str(o.to_bed12())), ("chr_loc", lambda o: o.chromosome_location),
@@ -206,14 +234,16 @@ TX_OPS = [
     ("evict", evict), ("twin", lambda o: str(mk_tx("chrom").get_spliced_sequence())), ("quals", lambda o: o.qualifiers), ("genomic", lambda o: o.get_genomic_sequence()),
 ]
 FEAT_OPS = [
-    ("spliced", lambda o: o.get_spliced_sequence()), ("ref", lambda o: o.get_reference_sequence()), ("to_dict", lambda o: o.to_dict()), ("gff", _gff),
+    ("lift_chunk", lambda o: o.lift_over_to_first_ancestor_of_type(SequenceType.SEQUENCE_CHUNK)), ("lift_chrom", lambda o: o.lift_over_to_first_ancestor_of_type(SequenceType.CHROMOSOME)),
+    ("lift_missing", lambda o: o.lift_over_to_first_ancestor_of_type("no_such_type")), ("spliced", lambda o: o.get_spliced_sequence()), ("ref", lambda o: o.get_reference_sequence()), ("to_dict", lambda o: o.to_dict()), ("gff", _gff),
     ("gff_parentq", lambda o: [str(r) for r in o.to_gff(parent="P", parent_qualifiers={"pq": {"z"}, "note": {"pn"}})]),
     ("export_q", lambda o: o.export_qualifiers({"note": {"extra"}})), ("bed", lambda o: str(o.to_bed12())), ("chr_loc", lambda o: o.chromosome_location),
     ("span", lambda o: o.chromosome_span), ("pos", lambda o: o.sequence_pos_to_feature(5)), ("guid", lambda o: str(o.guid)), ("quals", lambda o: o.qualifiers),
     ("evict", evict), ("twin", lambda o: str(mk_feat("chunk").get_spliced_sequence())),
 ]
 GENE_OPS = [
-    ("to_dict", lambda o: o.to_dict()), ("gff", _gff), ("merged_tx", lambda o: o.get_merged_transcript()), ("merged_cds", lambda o: o.get_merged_cds()),
+    ("lift_chunk", lambda o: o.lift_over_to_first_ancestor_of_type(SequenceType.SEQUENCE_CHUNK)), ("lift_chrom", lambda o: o.lift_over_to_first_ancestor_of_type(SequenceType.CHROMOSOME)),
+    ("lift_missing", lambda o: o.lift_over_to_first_ancestor_of_type("no_such_type")), ("to_dict", lambda o: o.to_dict()), ("gff", _gff), ("merged_tx", lambda o: o.get_merged_transcript()), ("merged_cds", lambda o: o.get_merged_cds()),
     ("primary", lambda o: o.get_primary_transcript().transcript_id), ("prim_seq", lambda o: o.get_primary_transcript_sequence()),
     ("prim_prot", lambda o: o.get_primary_protein()), ("export_q", lambda o: o.export_qualifiers()), ("coding", lambda o: o.is_coding),
     ("tx_blocks", lambda o: [[str(b) for b in t.blocks] for t in o.transcripts]), ("tx_gff", lambda o: [_gff(t) for t in o.transcripts]),
@@ -222,14 +252,16 @@ GENE_OPS = [
     ("tx_pos", lambda o: o.transcripts[0].sequence_pos_to_transcript(20)),
 ]
 FCOLL_OPS = [
-    ("to_dict", lambda o: o.to_dict()), ("gff", _gff), ("merged", lambda o: o.get_merged_feature()), ("primary", lambda o: o.get_primary_feature().feature_name),
+    ("lift_chunk", lambda o: o.lift_over_to_first_ancestor_of_type(SequenceType.SEQUENCE_CHUNK)), ("lift_chrom", lambda o: o.lift_over_to_first_ancestor_of_type(SequenceType.CHROMOSOME)),
+    ("lift_missing", lambda o: o.lift_over_to_first_ancestor_of_type("no_such_type")), ("to_dict", lambda o: o.to_dict()), ("gff", _gff), ("merged", lambda o: o.get_merged_feature()), ("primary", lambda o: o.get_primary_feature().feature_name),
     ("prim_seq", lambda o: o.get_primary_feature_sequence()), ("export_q", lambda o: o.export_qualifiers()), ("types", lambda o: o.feature_types),
     ("f_blocks", lambda o: [[str(b) for b in f.blocks] for f in o.feature_intervals]), ("f_quals", lambda o: [f.qualifiers for f in o.feature_intervals]),
     ("f_types", lambda o: [f.feature_types for f in o.feature_intervals]), ("guid", lambda o: str(o.guid)), ("evict", evict),
     ("f_gff", lambda o: [_gff(f) for f in o.feature_intervals]),
 ]
 ACOLL_OPS = [
-    ("to_dict", lambda o: o.to_dict()), ("gff", _gff), ("children", lambda o: [c.guid for c in o.iter_children()]), ("q_pos", lambda o: o.query_by_position(3, 34)),
+    ("lift_chunk", lambda o: o.lift_over_to_first_ancestor_of_type(SequenceType.SEQUENCE_CHUNK)), ("lift_chrom", lambda o: o.lift_over_to_first_ancestor_of_type(SequenceType.CHROMOSOME)),
+    ("lift_missing", lambda o: o.lift_over_to_first_ancestor_of_type("no_such_type")), ("to_dict", lambda o: o.to_dict()), ("gff", _gff), ("children", lambda o: [c.guid for c in o.iter_children()]), ("q_pos", lambda o: o.query_by_position(3, 34)),
     ("q_pos_relaxed", lambda o: o.query_by_position(10, 20, completely_within=False)), ("q_guid", lambda o: o.query_by_guids([next(iter(o.iter_children())).guid])),
     ("q_ident", lambda o: o.query_by_feature_identifiers(["gid"])), ("hier", lambda o: o.hierarchical_children_guids), ("len", len),
     ("child_dicts", lambda o: [c.to_dict() for c in o.iter_children()]), ("guid", lambda o: str(o.guid)), ("evict", evict), ("export_parent", lambda o: o.to_dict(export_parent=True)),
@@ -238,6 +270,7 @@ CATALOGUE = {
     "single": (mk_single, LOC_OPS, ("chrom", "chunk")), "unstranded": (mk_unstranded, LOC_OPS, ("chrom",)), "aa_minus": (mk_aa_minus, LOC_OPS, ("chrom",)), "compound": (mk_compound, LOC_OPS, ("chrom", "chunk")),
     "compound_ov": (mk_compound_ov, LOC_OPS, ("chrom",)),
     "deep": (mk_deep, DEEP_OPS, ("chrom",)),
+    "parent": (mk_parent, PARENT_OPS, ("seq_strand", "seq_loc", "id_strand", "id_loc")),
     "cds": (mk_cds, CDS_OPS, ("chrom", "chunk")), "tx": (mk_tx, TX_OPS, ("chrom", "chunk")), "feat": (mk_feat, FEAT_OPS, ("chrom", "chunk")),
     "gene": (mk_gene, GENE_OPS, ("chrom",)), "fcoll": (mk_fcoll, FCOLL_OPS, ("chrom",)), "acoll": (mk_acoll, ACOLL_OPS, ("chrom", "chunk")),
 }
